@@ -56,8 +56,10 @@ fn handle_client(stream: TcpStream, dbs: Arc<Databases>) {
     let (mut client, mut receiver) = Client::new_empty_and_receiver();
     writer.write_fmt(format_args!("ok \n")).unwrap();
     writer.flush().unwrap();
+    // Lives across the passes of the loop: on a non blocking socket read_line gives up (WouldBlock)
+    // in the middle of a line whose rest is still on its way and leaves the first part here
+    let mut buf = String::new();
     loop {
-        let mut buf = String::new();
         let read_line = reader.read_line(&mut buf);
         stream.set_nonblocking(true).unwrap();
         match read_line {
@@ -122,6 +124,7 @@ fn handle_client(stream: TcpStream, dbs: Arc<Databases>) {
                         },
                     },
                 }
+                buf.clear();
             }
             _ => process_message(&mut receiver, writer),
         }
